@@ -1,6 +1,6 @@
 // C31: hpack.Decoder.Write/Close on arbitrary byte strings, split at random points, vs model Hpack.v
 // and the RFC 7541 reference decoder in the same file.
-// input : [mx M [chunk ...]]   NewDecoder(mx); SetMaxStringLength(M) if M > 0; Write(chunk)... until error; Close()
+// input : [mx M k [chunk ...]]  (k: SetEmitEnabled(false) after k emitted fields, -1 never)    NewDecoder(mx); SetMaxStringLength(M) if M > 0; Write(chunk)... until error; Close()
 // output: [fields status tableSize tableMax tableEntries]
 package main
 
@@ -44,15 +44,23 @@ func errCode(err error) int {
 func impl(in hv.Val) hv.Val {
 	l := hv.AsList(in)
 	fs := hv.L{}
-	dec := hpack.NewDecoder(uint32(hv.AsInt(l[0])), func(f hpack.HeaderField) error {
+	budget := int(hv.AsInt(l[2]))
+	var dec *hpack.Decoder
+	dec = hpack.NewDecoder(uint32(hv.AsInt(l[0])), func(f hpack.HeaderField) error {
 		fs = append(fs, hv.L{hv.B([]byte(f.Name)), hv.B([]byte(f.Value)), hv.Bool(f.Sensitive)})
+		if budget >= 0 && len(fs) >= budget {
+			dec.SetEmitEnabled(false)
+		}
 		return nil
 	})
+	if budget == 0 {
+		dec.SetEmitEnabled(false)
+	}
 	if m := hv.AsInt(l[1]); m > 0 {
 		dec.SetMaxStringLength(int(m))
 	}
 	var err error
-	for _, c := range hv.AsList(l[2]) {
+	for _, c := range hv.AsList(l[3]) {
 		if _, err = dec.Write(hv.AsBytes(c)); err != nil {
 			break
 		}
@@ -372,9 +380,15 @@ func gen(r *hv.Rng, i int, tier string) (string, hv.Val) {
 			cut := r.Range(1, len(blk)-1)
 			chunks = append(chunks, hv.B(blk[:cut]), hv.B(blk[cut:]))
 		}
-		return "lim-paranoia", hv.L{hv.I(mx), hv.I(r.Range(1, 2)), chunks}
+		return "lim-paranoia", hv.L{hv.I(mx), hv.I(r.Range(1, 2)), hv.I(-1), chunks}
 	}
-	return label, hv.L{hv.I(mx), hv.I(m), chunks}
+	// emit budget: mostly never disabled; otherwise disabled from the start or after a few fields
+	k := -1
+	if r.Chance(1, 3) {
+		k = []int{0, 0, 1, 1, 2, 3, 5}[r.Intn(7)]
+		label = "emitoff:" + label
+	}
+	return label, hv.L{hv.I(mx), hv.I(m), hv.I(k), chunks}
 }
 
 type wbuf struct{ b []byte }
